@@ -173,6 +173,88 @@ theorem dfsRun_invJ {m : Mol} {env : Env} {opts : Opts} {groups seen} {S : List 
       · rename_i s' hs'
         exact ih s' r (dfsStep_inv hwf hS hI hs') (dfsStep_invJ hSN hI hJ hs') h
 
+/-! ## keys of `tokens` -/
+
+def InvK (s : Dfs) : Prop := (s.tokens.map (·.1)).Nodup ∧ ∀ k ∈ s.tokens.map (·.1), k ∈ vis s
+
+theorem dfsStep_tokens_shape {m : Mol} {env : Env} {opts : Opts} {groups seen} {s s' : Dfs}
+    (h : dfsStep m env opts groups seen s = .ok s') :
+    (s'.tokens = s.tokens ∧ ∀ a ∈ vis s, a ∈ vis s') ∨
+    (∃ f rest child, s.stack = f :: rest ∧ alHas s.visited child = true ∧ s'.visited = s.visited ∧
+      s'.tokens = alAppend (alAppend s.tokens f.parent (child, s.cycle + 1)) child (f.parent, s.cycle + 1)) := by
+  unfold dfsStep at h
+  split at h
+  · cases h; exact Or.inl ⟨rfl, fun a ha => ha⟩
+  · rename_i f rest hs
+    split at h
+    · cases h; exact Or.inl ⟨rfl, fun a ha => ha⟩
+    · rename_i child cs hc
+      simp only at h
+      split at h
+      · refine Or.inl ?_
+        split at h
+        · simp only [bind, Except.bind, pure, Except.pure] at h
+          split at h
+          · cases h
+          · split at h
+            · cases h; exact ⟨rfl, fun a ha => by simp [vis] at ha ⊢; exact Or.inl ha⟩
+            · split at h
+              · cases h
+              · cases h; exact ⟨rfl, fun a ha => by simp [vis] at ha ⊢; exact Or.inl ha⟩
+        · cases h; exact ⟨rfl, fun a ha => by simp [vis] at ha ⊢; exact Or.inl ha⟩
+      · rename_i hv
+        have hv : alHas s.visited child = true := by simpa using hv
+        split at h
+        · cases h; exact Or.inr ⟨f, rest, child, hs, hv, rfl, rfl⟩
+        · cases h; exact Or.inl ⟨rfl, fun a ha => ha⟩
+
+theorem dfsStep_invK {m : Mol} {env : Env} {opts : Opts} {groups seen} {S : List Nat} {start c0 : Nat} {s s' : Dfs}
+    (hI : Inv m S start c0 s) (hK : InvK s) (h : dfsStep m env opts groups seen s = .ok s') : InvK s' := by
+  rcases dfsStep_tokens_shape h with ⟨e1, e2⟩ | ⟨f, rest, child, hs, hv, e1, e2⟩
+  · unfold InvK; rw [e1]; exact ⟨hK.1, fun k hk => e2 k (hK.2 k hk)⟩
+  · have hpV : f.parent ∈ vis s := hI.2.1.stackVis f (by simp [hs])
+    have hcV : child ∈ vis s := (alHas_iff _ _).1 hv
+    have ev : vis s' = vis s := by simp [vis, e1]
+    unfold InvK
+    rw [e2, ev]
+    refine ⟨alAppend_keys_nodup _ _ _ (alAppend_keys_nodup _ _ _ hK.1), ?_⟩
+    intro k hk
+    rw [alAppend_keys] at hk
+    have h1 : ∀ k ∈ (alAppend s.tokens f.parent (child, s.cycle + 1)).map (·.1), k ∈ vis s := by
+      intro k hk
+      rw [alAppend_keys] at hk
+      split at hk
+      · exact hK.2 k hk
+      · rcases List.mem_append.1 hk with hk | hk
+        · exact hK.2 k hk
+        · simp only [List.mem_singleton] at hk; subst hk; exact hpV
+    split at hk
+    · exact h1 k hk
+    · rcases List.mem_append.1 hk with hk | hk
+      · exact h1 k hk
+      · simp only [List.mem_singleton] at hk; subst hk; exact hcV
+
+theorem dfsRun_invK {m : Mol} {env : Env} {opts : Opts} {groups seen} {S : List Nat} {start c0 : Nat}
+    (hwf : m.WF = true) (hS : ∀ a ∈ S, ∀ b ∈ nk m a, b ∈ S) :
+    ∀ (fuel : Nat) (s r : Dfs), Inv m S start c0 s → InvK s → dfsRun m env opts groups seen fuel s = .ok r → InvK r := by
+  intro fuel
+  induction fuel with
+  | zero =>
+    intro s r _ hK h
+    simp only [dfsRun] at h
+    split at h
+    · cases h; exact hK
+    · cases h
+  | succ n ih =>
+    intro s r hI hK h
+    simp only [dfsRun] at h
+    split at h
+    · cases h; exact hK
+    · split at h
+      · cases h
+      · rename_i s' hs'
+        exact ih s' r (dfsStep_inv hwf hS hI hs') (dfsStep_invK hI hK hs') h
+
 /-! ## the initial state of `traverse` -/
 
 theorem inv_initial {m : Mol} {S : List Nat} {start c0 : Nat} {ch : List Nat} {dr : List (Nat × Nat)}
@@ -227,6 +309,8 @@ structure DfsResult (m : Mol) (S : List Nat) (start c0 : Nat) (r : Dfs) : Prop w
   covered : ∀ a ∈ vis r, ∀ b ∈ nk m a, (a, b) ∈ treeP r.edges ∨ (b, a) ∈ treeP r.edges ∨ (a, b) ∈ r.disconnected
   atoms : fatoms (flatten r.edges (m.atoms.length + 1) start) = vis r
   bonds : (fbonds (flatten r.edges (m.atoms.length + 1) start)).Perm (treeP r.edges)
+  tokKeys : (r.tokens.map (·.1)).Nodup
+  tokVis : ∀ k ∈ r.tokens.map (·.1), k ∈ vis r
 
 theorem dfsRun_result {m : Mol} {env : Env} {opts : Opts} {groups seen} {S : List Nat} {start c0 fuel : Nat}
     {ch : List Nat} {dr : List (Nat × Nat)} {r : Dfs}
@@ -238,7 +322,8 @@ theorem dfsRun_result {m : Mol} {env : Env} {opts : Opts} {groups seen} {S : Lis
   have hI0 := inv_initial (c0 := c0) (dr := dr) hwf hstart hch
   obtain ⟨⟨hG, hSt, _⟩, hemp⟩ := dfsRun_inv hwf hS fuel _ r hI0 h
   have hJ := dfsRun_invJ hwf hS hSN fuel _ r hI0 invJ_initial h
-  refine ⟨hG, ?_, ?_, ?_⟩
+  have hK := dfsRun_invK hwf hS fuel _ r hI0 (by simp [InvK]) h
+  refine ⟨hG, ?_, ?_, ?_, hK.1, hK.2⟩
   · intro a ha b hb
     rcases hSt.cover a ha b hb with h1 | ⟨f, hf, _⟩
     · exact h1
